@@ -260,7 +260,7 @@ Fixpoint eval (uns : bool) (bits : N) (opts : list enumopt) (e : expr) : ev :=
           | EvOk b =>
               if N.eqb op kAmp then EvOk (wrap uns bits (Z.land a b))
               else if N.eqb op kVBar then EvOk (wrap uns bits (Z.lor a b))
-              else if (b <? 0)%Z then EvPanic
+              else if (b <? 0)%Z then EvErr
               else if N.eqb op kDCL then EvOk (if (Z.of_N bits <=? b)%Z then 0%Z else wrap uns bits (Z.shiftl a b))
               else EvOk (if (Z.of_N bits <=? b)%Z then (if (a <? 0)%Z then (-1)%Z else 0%Z) else wrap uns bits (Z.shiftr a b))
           | x => x
@@ -320,6 +320,7 @@ Fixpoint read_enum_loop (g : nat) (bitflags uns : bool) (bits : N) (opts : list 
     if N.eqb k kNewline then read_enum_loop g' bitflags uns bits opts [] depmsg dep
     else if N.eqb k kIdent then
       vu <- read_enum_value g' opts bitflags uns bits ;;
+      skip_eol_comments g' ;;;
       read_enum_loop g' bitflags uns bits
         (opts ++ [{| o_name := concrete t; o_comment := join_nl cm; o_depmsg := depmsg; o_value := fst vu; o_uvalue := snd vu; o_dep := dep |}])
         [] [] false
@@ -426,6 +427,7 @@ Fixpoint read_message_loop (g : nat) (fs : list (N * field)) (cm : list bytes) (
       match parse_uint false 8 (concrete t) with
       | None => fail
       | Some i =>
+          if N.eqb i 0 then fail else
           if has_idx i fs then fail else
           expect_next [kArrow] ;;; ft <- read_field_type g' ;;
           toks <- expect_next [kIdent; kSemi] ;;
@@ -531,15 +533,16 @@ Fixpoint top_loop (g : nat) (f : file) (cm : list bytes) (opc : N) (ro bf : bool
   match g with
   | O => nofuel
   | S g' =>
-    b <- p_next ;; if negb b then ret f else
+    b <- p_next ;; if negb b then (e <- p_haserr ;; if e then fail else ret f) else
     t <- p_tok ;; let k := kind t in
-    let bottom := fun (f : file) (ro : bool) => top_loop g' f [] 0%N ro bf in
+    let bottom := fun (f : file) (ro : bool) => top_loop g' f [] 0%N ro false in
     let do_struct := fun (ro : bool) =>
       if bf then fail else
       st <- read_struct g' ;;
       bottom {| structs := structs f ++ [{| s_name := s_name st; s_comment := join_nl cm; s_fields := s_fields st; s_opcode := opc; s_readonly := ro |}];
                 messages := messages f; enums := enums f; unions := unions f; consts := consts f; imports := imports f; gopackage := gopackage f |} false in
     if N.eqb k 20%N then
+      if negb (N.eqb opc 0) || bf then fail else
       toks <- expect_next [kString] ;;
       top_loop g' {| structs := structs f; messages := messages f; enums := enums f; unions := unions f; consts := consts f;
                      imports := imports f ++ [match toks with x :: _ => unquote (concrete x) | [] => [] end]; gopackage := gopackage f |} cm opc ro bf
@@ -550,7 +553,7 @@ Fixpoint top_loop (g : nat) (f : file) (cm : list bytes) (opc : N) (ro bf : bool
       expect_any_of_next [10%N; 21%N] ;;;
       k2 <- p_kind ;;
       if N.eqb k2 10%N then p_unnext ;;; oc <- read_opcode ;; top_loop g' f cm oc ro bf
-      else expect_any_of_next [kCloseSq] ;;; top_loop g' f cm opc ro true
+      else expect_any_of_next [kCloseSq] ;;; opt_newline ;;; top_loop g' f cm opc ro true
     else if N.eqb k 8%N then
       if negb (N.eqb opc 0) then fail else
       en <- read_enum g' bf ;;
